@@ -15,7 +15,8 @@ vdb exclusions, forced restrictions, plan length), all as multisets of small int
   * an operation that reports a conflict (non-forced add, replace) must leave the snapshot unchanged (replace undoes
     its partial work with an internal rollback);
   * no operation inside the domain may raise.
-Quick: bounded-exhaustive histories of length <=4 over a reduced alphabet + random histories; thorough: length <=5.
+Quick: bounded-exhaustive histories of length <=3 (plus a seeded eighth of length 4) over a reduced alphabet + random
+histories; thorough: every history of length <=5.
 
 Dropped w.r.t. DESIGN.md: RuleBasedStateMachine (plain op lists replay without hypothesis and shrink structurally).
 """
@@ -35,7 +36,7 @@ TECHNIQUE = "stateful op histories with rollbacks vs saved snapshots and fresh r
 DESIGN_REF = "DESIGN.md §3 C17"
 LEVEL_TEXT = (
     "Generated-history search: random operation histories (length 3-16) with rollbacks to earlier plan positions, plus "
-    "every history of length <=4 (quick) / <=5 (thorough) over a reduced alphabet (3 packages, 2 blockers, 23 ops) followed by every rollback; after each "
+    "every history of length <=3 + a seeded eighth of length 4 (quick) / <=5 (thorough) over a reduced alphabet (3 packages, 2 blockers, 23 ops) followed by every rollback; after each "
     "rollback the complete planner state is compared with the state recorded at that position and with a fresh replay "
     "of the surviving operations."
 )
@@ -322,21 +323,21 @@ def run_exhaustive(ctx, u, length, shard, nshards):
 def plan(tier, seed):
     tasks = []
     if tier == "quick":
-        for i in range(8):
-            tasks.append({"task": "exhaustive", "length": 4, "slice": i, "nslices": 8})
+        for i in range(1):  # quick: a seeded eighth of the length-4 space; thorough enumerates all of it
+            tasks.append({"task": "exhaustive", "length": 4, "slice": (seed + 3 * i) % 8, "nslices": 8, "partial": True})
         tasks.append({"task": "exhaustive", "length": 3, "slice": 0, "nslices": 1})
         tasks.append({"task": "exhaustive", "length": 2, "slice": 0, "nslices": 1})
         for i in range(6):
-            tasks.append({"task": "random", "examples": 20000})
+            tasks.append({"task": "random", "examples": 6000})
     else:
-        for i in range(23):
-            tasks.append({"task": "exhaustive", "length": 5, "slice": i, "nslices": 23})
+        tasks.append({"task": "exhaustive", "length": 2, "slice": 0, "nslices": 1})
+        tasks.append({"task": "exhaustive", "length": 3, "slice": 0, "nslices": 1})
         for i in range(4):
             tasks.append({"task": "exhaustive", "length": 4, "slice": i, "nslices": 4})
-        tasks.append({"task": "exhaustive", "length": 3, "slice": 0, "nslices": 1})
-        tasks.append({"task": "exhaustive", "length": 2, "slice": 0, "nslices": 1})
+        for i in range(23):
+            tasks.append({"task": "exhaustive", "length": 5, "slice": i, "nslices": 23})
         for i in range(16):
-            tasks.append({"task": "random", "examples": 300000})
+            tasks.append({"task": "random", "examples": 50000})
     return tasks
 
 
@@ -350,7 +351,10 @@ def run_task(ctx, task, **kw):
             run_history(ctx, u, gen_history(rnd))
     elif task == "exhaustive":
         done = run_exhaustive(ctx, u, kw["length"], kw["slice"], kw["nslices"])
-        ctx.note(f"exhaustive_len{kw['length']}", bool(done))
+        if kw.get("partial"):
+            ctx.note(f"len{kw['length']}_slices_visited_of_{kw['nslices']}", 1 if done else 0)
+        else:
+            ctx.note(f"exhaustive_len{kw['length']}", bool(done))
     else:
         raise core.HarnessError(f"unknown task {task}")
 
